@@ -406,12 +406,17 @@ func Check(env *core.Env, rep *core.Report) *core.Result {
 		}
 	})
 
+	// (4) a task's "Finished" line against the spinner's drawing goroutine (Spinner.tla)
+	spinFinishes := checkSpinner(env, add, note)
+	atomic.AddInt64(&evals, int64(spinFinishes))
+
 	gen, dist, nruns, cmds := core.TLCTotals()
 	cov := map[string]interface{}{
+		"cockpit_task_finishes_under_fast_spinner": spinFinishes,
 		"states": dist, "transitions": gen, "tlc_runs": nruns,
 		"traces_validated_against_impl": int(evals), "evaluations": int(evals), "distinct_nontrivial": len(cases),
 		"lockstep_cases": len(cases), "concurrent_runs": nConc, "format_runs": len(jobs) + cock,
-		"rule":       "lock-step: every stream of <=4 tokens over {plain, LF, CRLF, ANSI sequence} x every chunking with <=2 cuts (cuts inside CRLF and inside the escape sequence included) from DecorGen.tla with the predicted sink writes, written chunk by chunk into the real prefixed decorator over a recording sink (exact sink texts + the normalisation property); concurrent: 1..8 goroutines with random streams (lines of up to 10000 bytes, CR/LF variants, ANSI sequences, unterminated tail) and random chunkings into one sink; raw: byte equality; formats: 6 task outcomes x task/pipeline x raw/prefixed/cockpit through the binary, and 8 parallel stages under cockpit",
+		"rule":       "lock-step: every stream of <=4 tokens over {plain, LF, CRLF, ANSI sequence} x every chunking with <=2 cuts (cuts inside CRLF and inside the escape sequence included) from DecorGen.tla with the predicted sink writes, written chunk by chunk into the real prefixed decorator over a recording sink (exact sink texts + the normalisation property); concurrent: 1..8 goroutines with random streams (lines of up to 10000 bytes, CR/LF variants, ANSI sequences, unterminated tail) and random chunkings into one sink; raw: byte equality; formats: 6 task outcomes x task/pipeline x raw/prefixed/cockpit through the binary, and 8 parallel stages under cockpit; spinner: Spinner.tla (lock protocol between a finishing task and the drawing goroutines) and 1..3 goroutines starting and finishing task outputs under cockpit with a 20 us frame in a child process (progress-based hang detection)",
 		"model_runs": modelRuns, "samples": samples.List(), "checker_cmds": cmds,
 	}
 	return &core.Result{Level: "model_checking", Coverage: cov, Assumptions: []string{
